@@ -467,7 +467,9 @@ func dumpLeafNode(node *node) (string, bool) {
 	var res string
 	switch v := node.value.(type) {
 	case string:
-		res = strconv.Quote(v)
+		// the lexer reads a string literal verbatim up to the next double
+		// quote (no escape sequences), so it is printed verbatim as well
+		res = `"` + v + `"`
 	case []string:
 		var sb strings.Builder
 		sb.WriteRune('(')
@@ -475,7 +477,7 @@ func dumpLeafNode(node *node) (string, bool) {
 			if idx != 0 {
 				sb.WriteRune(' ')
 			}
-			sb.WriteString(strconv.Quote(s))
+			sb.WriteString(`"` + s + `"`)
 		}
 		sb.WriteRune(')')
 		res = sb.String()
